@@ -85,8 +85,10 @@ def build(case):
     focus, ctx = p["focus"], p["ctx"]
     family, mech, nest = p["family"], p["mech"], p.get("nest", "single")
     twin = bool(case.get("vacuity_twin"))
-    fname = tmpl["funcs"][0].split(".")[-1]
+    fname = p.get("fn") or tmpl["funcs"][0].split(".")[-1]
     fpb = f"C04:{tmpl['name']}:{focus}"
+    needs = p.get("needs")  # per override: name of the function that must be an ancestor activation (or None)
+    sels2 = p.get("sels")  # explicit selector texts for the two overriding probes (call-path precedence cases)
     cfgd = {"mech": mech, "family": family, "nest": nest}
 
     def core(a, b, c, d, V, V2, T, ops, vals):
@@ -100,7 +102,17 @@ def build(case):
                 return value
             cv = frame.latest.get(ctx) if ctx else None
             out = value
-            for ov in overrides:  # activation order: the last one that does not decline wins
+            for k, ov in enumerate(overrides):  # activation order: the last one that does not decline wins
+                if needs and needs[k]:
+                    # this override's selector names an enclosing function: it applies only under such an activation
+                    anc, ok_path = frame.parent, False
+                    while anc is not None:
+                        if frame.rec.acts[anc].fname == needs[k]:
+                            ok_path = True
+                            break
+                        anc = frame.rec.acts[anc].parent
+                    if not ok_path:
+                        continue
                 r = ov(value, cv)
                 if r is not DECLINE:
                     out = r
@@ -118,6 +130,11 @@ def build(case):
         ns_i, H_i = load(tmpl)
         _, _, selfn = _fn_holder(ns_i, tmpl)
         sel = f"{selfn}({ctx}) > {focus}" if ctx else f"{selfn} > {focus}"
+        sel_b = sel
+        plain_sel = f"{selfn} > {focus}"
+        if sels2:
+            sel, sel_b = sels2
+            plain_sel = f"{fname} > {focus}"
         seen = []
 
         def as_setter(ov):
@@ -147,7 +164,7 @@ def build(case):
 
         try:
             if mech in ("override", "koverride"):
-                plain = probing(f"{selfn} > {focus}", env=ns_i)
+                plain = probing(plain_sel, env=ns_i)
                 order = {"single": ["o1", "plain"], "plain_outer": ["plain", "o1", "o2"], "plain_mid": ["o1", "plain", "o2"],
                          "plain_inner": ["o1", "o2", "plain"]}[nest]
                 for what in order:
@@ -157,7 +174,7 @@ def build(case):
                     elif what == "o1":
                         attach(enter(probing(sel, env=ns_i, overridable=True)), ov1, family)
                     else:
-                        attach(enter(probing(sel, env=ns_i, overridable=True)), ov2, "cond")
+                        attach(enter(probing(sel_b, env=ns_i, overridable=True)), ov2, "cond")
             else:  # Overlay API on a @tooled function (no auto-instrumentation)
                 _set_fn(ns_i, tmpl, tooled(_get_fn(ns_i, tmpl)))
                 rsel = select(sel, env=ns_i)
@@ -187,7 +204,7 @@ def build(case):
     if p.get("closure"):
         def h_closure(a: int, V: int):
             ns_i, H_i = load(tmpl)
-            with probing("f > k", env=ns_i, overridable=True) as prb:
+            with probing(f"f > {focus}", env=ns_i, overridable=True) as prb:
                 prb.override(lambda data: V)
                 try:
                     ns_i["drive"](a, 0, 0, 0)
@@ -198,7 +215,7 @@ def build(case):
                 require(not raised, "vacuity twin", {"fp": "twin"})
                 return
             require(raised, "override of a closure variable was not reported as an error",
-                    {"fp": "C04:closure:not-reported"})
+                    {"fp": f"C04:closure:{tmpl['name']}:not-reported"})
         return h_closure
 
     if tmpl["gen"]:
@@ -249,6 +266,17 @@ def cases(tier, seed):
     for t, f, cx in GEN_TARGETS:
         add(t, f, cx, "const", "override", budget=900 if th else 200)
         add(t, f, cx, "cond", "override", budget=900 if th else 200)
+    # precedence between overrides whose selectors name call paths of different length (both orders of activation)
+    for nm, sels, needs in (("long-first", ["f > inner > x", "inner > x"], ["f", None]),
+                            ("short-first", ["inner > x", "f > inner > x"], [None, "f"]),
+                            ("ctx-long-first", ["f(a) > inner > x", "inner(v) > x"], ["f", None])):
+        for nest in ("plain_outer", "plain_inner"):
+            for fam in ("const", "cond"):
+                cs.append({"id": f"callpath:x:{nm}:{fam}:{nest}",
+                           "params": {"template": "callpath", "focus": "x", "ctx": None, "family": fam, "mech": "override", "nest": nest,
+                                      "fn": "inner", "sels": sels, "needs": needs}, "budget_s": 600 if th else 120})
+    cs.append({"id": "closure_nonlocal:cnt:override", "params": {"template": "closure_nonlocal", "focus": "cnt", "ctx": None,
+                                                                 "family": "const", "mech": "override", "closure": True}, "budget_s": 60})
     cs.append({"id": "closure_read:k:override", "params": {"template": "closure_read", "focus": "k", "ctx": None,
                                                            "family": "const", "mech": "override", "closure": True}, "budget_s": 60})
     cs.append({"id": "closure_read:k:override:twin", "params": {"template": "closure_read", "focus": "k", "ctx": None,
